@@ -89,14 +89,14 @@ run (const std::string& fn, Io<T>& io)
     else if (fn == "V4.length") { io.o (io.v4 ().length ()); }
     else if (fn == "V4.normalized") { io.o (io.v4 ().normalized ()); }
     else if (fn == "M44.mul") { Matrix44<T> a = io.m44 (), b = io.m44 (); io.o (a * b); }
-    else if (fn == "M44.inverse") { io.o (io.m44 ().inverse ()); }
-    else if (fn == "M44.gjInverse") { io.o (io.m44 ().gjInverse ()); }
+    else if (fn == "M44.inverse") { io.o (io.m44 ().inverse (true)); }   // the binding's default is singExc = true
+    else if (fn == "M44.gjInverse") { io.o (io.m44 ().gjInverse (true)); }
     else if (fn == "M44.transposed") { io.o (io.m44 ().transposed ()); }
     else if (fn == "M44.determinant") { io.o (io.m44 ().determinant ()); }
     else if (fn == "M44.multVecMatrix") { Matrix44<T> m = io.m44 (); V3 s = io.v3 (), d; m.multVecMatrix (s, d); io.o (d); }
     else if (fn == "M44.multDirMatrix") { Matrix44<T> m = io.m44 (); V3 s = io.v3 (), d; m.multDirMatrix (s, d); io.o (d); }
     else if (fn == "M33.mul") { Matrix33<T> a = io.m33 (), b = io.m33 (); io.o (a * b); }
-    else if (fn == "M33.inverse") { io.o (io.m33 ().inverse ()); }
+    else if (fn == "M33.inverse") { io.o (io.m33 ().inverse (true)); }
     else if (fn == "M33.determinant") { io.o (io.m33 ().determinant ()); }
     else if (fn == "Quat.mul") { Quat<T> a = io.q (), b = io.q (); io.o (a * b); }
     else if (fn == "Quat.inverse") { io.o (io.q ().inverse ()); }
